@@ -117,6 +117,9 @@ func innerList(el any) (map[string]any, []any, bool) {
 	return m, l, ok
 }
 
+// ss7BadHex is set by the bad-hex operator (read and reset by c07Run).
+var ss7BadHex bool
+
 var c07Ops = []corruption{
 	{"drop-element", func(resp any, pos, arg int) (any, bool) {
 		a, ok := asArr(resp)
@@ -342,6 +345,65 @@ var c07Ops = []corruption{
 		}
 		return resp, true
 	}},
+	{"bad-hex", func(resp any, pos, arg int) (any, bool) {
+		// one hex string of one element (a hash, an address, log data ...) gets a non-hex
+		// character or an odd number of digits: still JSON, no longer the value
+		var els []any
+		if a, ok := asArr(resp); ok {
+			els = a
+		} else {
+			els = []any{resp}
+		}
+		if len(els) == 0 {
+			return resp, false
+		}
+		var strs []func(string)
+		var vals []string
+		// only members the client is known to decode into byte strings in every plan:
+		// a block's own hash / parentHash; blockHash of a log, receipt or trace; address and data of a log
+		take := func(x map[string]any, keys ...string) {
+			for _, k := range keys {
+				k := k
+				if sv, ok := x[k].(string); ok && strings.HasPrefix(sv, "0x") && len(sv) >= 42 {
+					strs = append(strs, func(nv string) { x[k] = nv })
+					vals = append(vals, sv)
+				}
+			}
+		}
+		m, ok := asObj(els[pos%len(els)])
+		if !ok {
+			return resp, false
+		}
+		switch r := m["result"].(type) {
+		case map[string]any:
+			take(r, "hash", "parentHash")
+		case []any:
+			for _, it := range r {
+				if im, ok := asObj(it); ok {
+					take(im, "blockHash")
+					if _, isLog := im["topics"]; isLog {
+						take(im, "address", "data")
+					}
+				}
+			}
+		}
+		if len(strs) == 0 {
+			return resp, false
+		}
+		i := arg % len(strs)
+		v := vals[i]
+		switch (arg / 7) % 3 {
+		case 0:
+			v = v[:10] + "g" + v[11:]
+		case 1:
+			v = v[:len(v)-1] // odd number of digits
+		default:
+			v = v[:2] + "0x" + v[4:]
+		}
+		strs[i](v)
+		ss7BadHex = true
+		return resp, true
+	}},
 	{"item-change-tx-index", func(resp any, pos, arg int) (any, bool) {
 		_, list, ok := findList(resp, pos)
 		if !ok || len(list) == 0 {
@@ -411,6 +473,7 @@ type servedSet struct {
 	receipts   []map[string]any
 	traces     []map[string]any
 	dupLogIdx  map[[2]uint64]bool // (block, log index) served more than once with different content
+	badHex     bool               // a hex string of a response was corrupted
 	lagging    bool                // a request was answered by a replica that lacks blocks of the range
 	itemHashes map[uint64][]string // block number -> blockHash of every served log / receipt / trace ("" = none)
 	wrongBlock bool // a receipts/traces response answers for another block than asked, or mixes blocks
@@ -554,6 +617,8 @@ func c07Judge(ss *servedSet, f *glf.Filter, start, limit uint64, blocks []eth.Bl
 		must = "a response element carries an error member"
 	case ss.nullResult:
 		must = "a result is null / missing"
+	case ss.badHex:
+		must = "a hex value of the response is not hex / has an odd number of digits"
 	case ss.lagging:
 		must = "a request was answered by a replica that does not have the whole range yet (missing results)"
 	case ss.shortBatch:
@@ -820,6 +885,11 @@ func c07Run(plan string, start, limit uint64, muts []c07Mut) (viol string, appli
 			switch m.op {
 			case -1:
 				ss.transport = true
+				if m.arg%3 == 2 {
+					// the complete, well-formed JSON-RPC body under an error status
+					applied = append(applied, "http-"+strconv.Itoa(500+m.arg%4)+"-with-json-body")
+					return &sim.Fault{Status: 500 + m.arg%4, KeepBody: true}
+				}
 				applied = append(applied, "http-"+strconv.Itoa(500+m.arg%4))
 				return &sim.Fault{Status: 500 + m.arg%4}
 			case -2:
@@ -890,6 +960,7 @@ func c07Run(plan string, start, limit uint64, muts []c07Mut) (viol string, appli
 		ss.transport = false
 	}
 	parsedOK = !ss.transport
+	ss.badHex, ss7BadHex = ss7BadHex, false
 	for _, f := range lagged {
 		if f.LagHit {
 			ss.lagging = true
